@@ -209,12 +209,12 @@ fn v1_serializer<const K: usize>() {
 }
 
 #[kani::proof]
-#[kani::unwind(10)]
+#[kani::unwind(20)]
 fn c18_v1_ser_k1() {
     v1_serializer::<1>();
 }
 #[kani::proof]
-#[kani::unwind(10)]
+#[kani::unwind(20)]
 fn c18_v1_ser_k2() {
     v1_serializer::<2>();
 }
